@@ -35,7 +35,7 @@ TIERS = {
     "quick": {"runs": 60000, "chunk": 250, "selftest": 64, "minimise_s": 30},
     "thorough": {"budget_s": 600, "chunk": 300, "selftest": 512, "minimise_s": 90},
 }
-PROBES = ["register_after_resolve", "priority_conflict", "priority_zero_after_positive", "detector_fault", "converter_fault",
+PROBES = ["profiled_write_cut", "register_after_resolve", "priority_conflict", "priority_zero_after_positive", "detector_fault", "converter_fault",
           "base_fallback", "shortcut_attr", "threaded_run", "register_during_resolve_scan"]
 
 CLASSES = ["Base", "Mid", "Low", "Other", "WithMeta", "Marked", "MarkedF", "Virt", "Short"]
@@ -221,6 +221,13 @@ def generate(rng, tier):
             {"kind": "quantum", "q": rng.choice([1, 2, 3, 5]), "seed": pseed},
             {"kind": "pct", "d": rng.choice([2, 3]), "est": 300, "seed": pseed},
         ])
+        writers = [t for t, idxs in enumerate(plan["threads"]) if any(ops[i]["op"] == "register" for i in idxs)]
+        if writers and rng.random() < 0.3:
+            # stop a registering thread just before one of its stores into the registry (which one: a fraction of the
+            # stores it makes when run first and alone, profiled in a twin world), let the other thread complete m-1 whole
+            # operations, let the registration finish, then the rest
+            t1 = rng.choice(writers)
+            plan["schedule"] = {"kind": "acuts", "frac": rng.random(), "cuts": [[t1, None, "W"], [1 - t1, rng.choice([2, 2, 3]), "O"]], "seed": pseed}
     return plan
 
 
@@ -513,8 +520,19 @@ def execute_threaded(plan):
         if op["op"] == "register":
             return lambda: (w.register(op), ["registered"])[1]
         return lambda: do_op(w, op)
+    pol = copy.deepcopy(plan["schedule"])
+    if pol.get("frac") is not None:
+        t1 = pol["cuts"][0][0]
+        prof = Scheduler({"kind": "sequential", "order": [t1, 1 - t1], "seed": 0}, nth, budget=200_000)
+        prof.run([[mk(i) for i in idxs] for idxs in plan["threads"]])
+        nw = prof.hotw_points[t1]
+        pol["cuts"][0][1] = 1 + int(pol["frac"] * nw) if nw else 1
+        res.ev("profiled-cut", t1, nw, pol["cuts"][0][1])
+        res.stats["probe:profiled_write_cut"] += 1
+        w = World(plan)
+        kernel.make_module("verif_c16")
     programs = [[mk(i) for i in idxs] for idxs in plan["threads"]]
-    sched = Scheduler(dict(plan["schedule"]), nth, budget=200_000)
+    sched = Scheduler(pol, nth, budget=200_000)
     results = sched.run(programs)
     if sched.errors:
         raise kernel.HarnessError("; ".join(sched.errors))
